@@ -301,8 +301,10 @@ func (fr *Frame) fnAppResult(con *Contract, sig *types.Signature, args []*Val) *
 	var ts []*Term
 	for _, a := range args {
 		switch a.K {
-		case KInt, KBool, KStr, KArr, KMath:
+		case KInt, KBool, KStr, KMath:
 			ts = append(ts, a.X)
+		case KArr:
+			ts = append(ts, arrAsInt(a))
 		default:
 			return nil
 		}
